@@ -1131,7 +1131,7 @@ static JanetSignal run_vm(JanetFiber *fiber, Janet in) {
         vm_assert_type(fv, JANET_FIBER);
         JanetFiber *f = janet_unwrap_fiber(fv);
         JanetFiberStatus sub_status = janet_fiber_status(f);
-        if (sub_status > JANET_STATUS_USER9) {
+        if (sub_status > JANET_STATUS_USER9 || sub_status == JANET_STATUS_DEAD) {
             vm_commit();
             janet_panicf("cannot propagate from fiber with status :%s",
                          janet_status_names[sub_status]);
